@@ -108,6 +108,14 @@ impl Rec {
     }
     pub fn violation(&mut self, sig: impl Into<String>, what: impl Into<String>, detail: Value) {
         let sig = sig.into();
+        let what: String = what.into();
+        // process-wide log of what has been observed so far (per-worker recorders are merged only at the end of a
+        // section): read by the memory guard, so that violations already seen are reported when a run has to be cut short
+        if let Ok(mut g) = VIOL_LOG.lock() {
+            if g.len() < 40 && !g.iter().any(|(s0, _)| s0 == &sig) {
+                g.push((sig.clone(), what.clone()));
+            }
+        }
         self.violation_count += 1;
         let n = self.sigs_seen.entry(sig.clone()).or_insert(0);
         *n += 1;
@@ -228,6 +236,8 @@ pub fn note_current(e: &str) {
 }
 
 /// Run `f` on the library side; a panic is reported as Err(message).
+pub static VIOL_LOG: std::sync::Mutex<Vec<(String, String)>> = std::sync::Mutex::new(Vec::new());
+
 pub fn guarded<T>(f: impl FnOnce() -> T) -> Result<T, String> {
     use std::sync::atomic::Ordering::Relaxed;
     let slot = my_slot();
